@@ -1,10 +1,11 @@
 CONSTANTS D <- MCD
   R <- MCR
   Msgs <- MCMsgs
-  Regs <- MCRegs
+  Regs <- MCRegs3
   MaxCalls = 2
-  MaxRegs = 1
+  MaxRegs = 2
   Locked = TRUE
 SPECIFICATION MCSpec
-INVARIANTS NeverWaitsBehindHandler
+INVARIANTS NoCrash Exclusion SeesCompleted
+PROPERTIES StableUnderReaders
 CHECK_DEADLOCK FALSE
